@@ -1,6 +1,7 @@
 import Tftp.Driver.Util
 import Tftp.Driver.Worker
 import Tftp.Driver.Server
+import Tftp.Driver.Config
 open Tftp Tftp.Driver
 
 def dispatch (line : String) : String :=
@@ -14,6 +15,7 @@ def dispatch (line : String) : String :=
     else if cmd = "rcv" then rcvLine toks
     else if cmd = "req" then reqLine toks
     else if cmd = "storm" then stormLine toks
+    else if cmd = "cfg" then cfgLine toks
     else "bad-op"
 
 partial def loop (hin : IO.FS.Stream) (hout : IO.FS.Stream) : IO Unit := do
